@@ -121,7 +121,7 @@ func (se *SessionExecutor) doMultiStmts(reqCtx *util.RequestContext, sql string)
 
 	stmtsNum := len(piecesSql)
 	if stmtsNum == 1 { //single statements
-		return se.doQuery(reqCtx, sql)
+		return se.doQuery(reqCtx, piecesSql[0])
 	}
 
 	//multi-query
